@@ -373,7 +373,12 @@ func rpcRefreshContract(ctx context.Context, t TransportClient, tp TxPool, signe
 	// add the host inputs to the transaction
 	var hostInputSum types.Currency
 	for _, si := range hostInputsResp.HostInputs {
-		hostInputSum = hostInputSum.Add(si.Parent.SiacoinOutput.Value)
+		var overflow bool
+		hostInputSum, overflow = hostInputSum.AddWithOverflow(si.Parent.SiacoinOutput.Value)
+		if overflow {
+			signer.ReleaseInputs([]types.V2Transaction{reserved})
+			return RPCRefreshContractResult{}, clientErrf("host inputs overflow")
+		}
 		renewalTxn.SiacoinInputs = append(renewalTxn.SiacoinInputs, si)
 	}
 
@@ -1128,7 +1133,12 @@ func RPCFormContract(ctx context.Context, t TransportClient, tp TxPool, signer F
 	// add the host inputs to the transaction
 	var hostInputSum types.Currency
 	for _, si := range hostInputsResp.HostInputs {
-		hostInputSum = hostInputSum.Add(si.Parent.SiacoinOutput.Value)
+		var overflow bool
+		hostInputSum, overflow = hostInputSum.AddWithOverflow(si.Parent.SiacoinOutput.Value)
+		if overflow {
+			signer.ReleaseInputs([]types.V2Transaction{reserved})
+			return RPCFormContractResult{}, clientErrf("host inputs overflow")
+		}
 		formationTxn.SiacoinInputs = append(formationTxn.SiacoinInputs, si)
 	}
 
@@ -1268,7 +1278,12 @@ func RPCRenewContract(ctx context.Context, t TransportClient, tp TxPool, signer 
 	// add the host inputs to the transaction
 	var hostInputSum types.Currency
 	for _, si := range hostInputsResp.HostInputs {
-		hostInputSum = hostInputSum.Add(si.Parent.SiacoinOutput.Value)
+		var overflow bool
+		hostInputSum, overflow = hostInputSum.AddWithOverflow(si.Parent.SiacoinOutput.Value)
+		if overflow {
+			signer.ReleaseInputs([]types.V2Transaction{reserved})
+			return RPCRenewContractResult{}, clientErrf("host inputs overflow")
+		}
 		renewalTxn.SiacoinInputs = append(renewalTxn.SiacoinInputs, si)
 	}
 
